@@ -278,10 +278,38 @@ func runC13(c *Ctx) error {
 	for i := 0; i < n; i++ {
 		props := genXProps(c)
 		padSets := [][]string{{""}, {" ", "\n", "\n  ", "   "}, {" ", "\n", "\t", "\r\n", "\r\n\t"}, {" ", "\n", "\n \n", strings.Repeat(" ", 130), strings.Repeat("\n ", 200)}}
-		pi := c.Rng.Intn(len(padSets))
-		pads := padSets[pi]
+		pi := c.Rng.Intn(len(padSets) + 1)
+		var pads []string
+		if pi < len(padSets) {
+			pads = padSets[pi]
+		}
+		padFn := func() string { return pads[c.Rng.Intn(len(pads))] }
+		if pads == nil {
+			// white-space runs of every length around the reader's 128-byte look-ahead steps
+			c.Stat("pad.runs-around-window-steps")
+			padFn = func() string {
+				var n int
+				switch c.Rng.Intn(5) {
+				case 0:
+					n = c.Rng.Intn(3)
+				case 1:
+					n = 100 + c.Rng.Intn(40)
+				case 2:
+					n = 128*(1+c.Rng.Intn(4)) - 20 + c.Rng.Intn(24)
+				case 3:
+					n = c.Rng.Intn(700)
+				default:
+					n = 1
+				}
+				b := make([]byte, n)
+				for i := range b {
+					b[i] = " \n\t "[c.Rng.Intn(4)]
+				}
+				return string(b)
+			}
+		}
 		mk := func(attr func(i int) bool) ([]byte, []bool) {
-			st := xmpStyle{quote: []byte{'"', '\''}[c.Rng.Intn(2)], pad: func() string { return pads[c.Rng.Intn(len(pads))] }}
+			st := xmpStyle{quote: []byte{'"', '\''}[c.Rng.Intn(2)], pad: padFn}
 			st.junk = []string{"", "<?xpacket begin=\"\" id=\"W5M0MpCehiHzreSzNTczkc9d\"?>\n", "junk < not a tag <y:z> " + strings.Repeat("#", c.Rng.Intn(3000)),
 				"<", "<<", "<y:z>", "<!-- c --><a>", "<?xpacket begin=\"\"?>", "x:xmpmeta <x:xmpmet", strings.Repeat("<", 1+c.Rng.Intn(12))}[c.Rng.Intn(10)]
 			for i := range props {
@@ -308,13 +336,13 @@ func runC13(c *Ctx) error {
 			}
 		}
 		mixed, forms := mk(func(int) bool { return c.Rng.Intn(2) == 0 })
-		nontag := "mixed" + []string{"", "", "-tabs-cr", "-longws"}[pi]
+		nontag := "mixed" + []string{"", "", "-tabs-cr", "-longws", "-wsruns"}[pi]
 		jobs = append(jobs, job{req: "xmpimpl " + hexs(mixed), mreq: "xmp.parse " + hexs(mixed), expect: "nil " + expectedXMP(props, forms), tag: nontag, pair: -1, long: long, arrays: arrJSON})
 		a, fa := mk(func(int) bool { return true })
 		ia := len(jobs)
-		jobs = append(jobs, job{req: "xmpimpl " + hexs(a), mreq: "xmp.parse " + hexs(a), expect: "nil " + expectedXMP(props, fa), tag: "attr" + []string{"", "", "-tabs-cr", "-longws"}[pi], pair: -1, long: long, arrays: arrJSON})
+		jobs = append(jobs, job{req: "xmpimpl " + hexs(a), mreq: "xmp.parse " + hexs(a), expect: "nil " + expectedXMP(props, fa), tag: "attr" + []string{"", "", "-tabs-cr", "-longws", "-wsruns"}[pi], pair: -1, long: long, arrays: arrJSON})
 		e, fe := mk(func(int) bool { return false })
-		jobs = append(jobs, job{req: "xmpimpl " + hexs(e), mreq: "xmp.parse " + hexs(e), expect: "nil " + expectedXMP(props, fe), tag: "elem" + []string{"", "", "-tabs-cr", "-longws"}[pi], pair: ia, long: long, arrays: arrJSON})
+		jobs = append(jobs, job{req: "xmpimpl " + hexs(e), mreq: "xmp.parse " + hexs(e), expect: "nil " + expectedXMP(props, fe), tag: "elem" + []string{"", "", "-tabs-cr", "-longws", "-wsruns"}[pi], pair: ia, long: long, arrays: arrJSON})
 		if i%2 == 0 {
 			for _, m := range mutate(c, epInput{Data: mixed}, 2) {
 				jobs = append(jobs, job{req: "xmpimpl " + hexs(m.Data), mreq: "xmp.parse " + hexs(m.Data), tag: "malformed", pair: -1})
